@@ -29,6 +29,7 @@ type history struct {
 	ssrcSeqNrToCounter map[ssrcSequenceNumber]uint64
 
 	packets      map[uint64]*PacketReport
+	hasAcked     bool
 	highestAcked uint64
 	nextReport   uint64
 
@@ -93,7 +94,8 @@ func (h *history) onFeedback(ts time.Time, counter uint64, ack acknowledgement) 
 		return 0, false
 	}
 	p.Arrived = ack.arrived
-	if p.Arrived && h.highestAcked < p.SequenceNumber {
+	if p.Arrived && (!h.hasAcked || h.highestAcked < p.SequenceNumber) {
+		h.hasAcked = true
 		h.highestAcked = p.SequenceNumber
 	}
 	p.Arrival = ack.arrival
@@ -149,7 +151,7 @@ func (h *history) buildReport() []PacketReport {
 	h.lock.Lock()
 	defer h.lock.Unlock()
 
-	if h.nextReport > h.highestAcked {
+	if !h.hasAcked || h.nextReport > h.highestAcked {
 		return nil
 	}
 	res := make([]PacketReport, 0, h.highestAcked-h.nextReport+1)
